@@ -212,6 +212,45 @@ def Stmt.clean {α : Type} : Stmt α → Stmt α
   | .query p => .query p.clean
   | .dml _ d c => .dml none d c.clean
 
+/-! ### the storage write transaction behind INSERT / COPY (`SecondaryTransaction`)
+
+`append_inner` buffers chunks in a memtable; when the buffered size reaches `target_rowset_size`
+the memtable is rolled over: flushed to a row-set on disk (`flush_rowset`) and kept in
+`to_be_committed_rowsets`.  Only `commit` hands the row-sets to the version manager (one manifest
+transaction); dropping the transaction publishes nothing. -/
+
+structure WTxn (α : Type) where
+  /-- row-sets of the published version (what every reader sees) -/
+  visible : List (List α)
+  /-- the memtable -/
+  mem : List α
+  /-- `to_be_committed_rowsets`: rolled-over row-sets, on disk, not published -/
+  pending : List (List α)
+  /-- `total_size` -/
+  size : Nat
+  deriving Repr, DecidableEq
+
+def WTxn.start {α : Type} (visible : List (List α)) : WTxn α := ⟨visible, [], [], 0⟩
+
+/-- `append_inner` with `target_rowset_size = limit`; `sz c = 0` is a chunk without rows (ignored). -/
+def WTxn.append {α : Type} (limit : Nat) (sz : α → Nat) (t : WTxn α) (c : α) : WTxn α :=
+  if sz c = 0 then t
+  else if t.size + sz c ≥ limit then { t with mem := [], pending := t.pending ++ [t.mem ++ [c]], size := 0 }
+  else { t with mem := t.mem ++ [c], size := t.size + sz c }
+
+def WTxn.appendAll {α : Type} (limit : Nat) (sz : α → Nat) (t : WTxn α) (cs : List α) : WTxn α :=
+  cs.foldl (WTxn.append limit sz) t
+
+/-- `commit_inner`: flush the memtable, publish every row-set of the transaction at once. -/
+def WTxn.commit {α : Type} (t : WTxn α) : List (List α) :=
+  t.visible ++ t.pending ++ (if t.mem.isEmpty then [] else [t.mem])
+
+/-- The transaction is dropped (`?` in the executor, a panic, an explicit abort). -/
+def WTxn.abort {α : Type} (t : WTxn α) : List (List α) := t.visible
+
+/-- Row-set directories the transaction has created so far (`create_dir` per started row-set). -/
+def WTxn.started {α : Type} (t : WTxn α) : Nat := t.pending.length + (if t.mem.isEmpty then 0 else 1)
+
 /-! ### Concrete operators used by the correspondence driver
 
 Chunks are tokens: which node produced it, its index in that node's fault-free output, its row
